@@ -88,9 +88,10 @@ class FallbackClient:
     def gets(self, key):
         for cache in self.caches:
             result = cache.gets(key)
-            if result is not None:
+            # Client.gets reports a miss as (None, None), not as None
+            if result is not None and result[0] is not None:
                 return result
-        return None
+        return (None, None)
 
     def gets_many(self, keys):
         for cache in self.caches:
